@@ -45,6 +45,14 @@ def wasm_programs(rng, n):
     return [g.module(outside=(k % 5 == 4)) for k in range(n)]
 
 
+REJECTED = ["export function r1(int a) -> int { break; return a; }",
+            "export function r2(float4 v) -> float { return v.q; }",
+            "export function r3(int a) -> int { int t[3]; return t[5]; }".replace("int t[3]", "int[3] t"),
+            "export function r4(float x) -> int { int[3] t; return t[x]; }",
+            "export function r5(int a) -> int { int a; return a; }",
+            "export function r6(int a) -> int { while (a > 0) { a = a - 1; } continue; return a; }"]
+
+
 def run(ctx):
     ctx.static_obligations(STATIC)
     repo = ctx.sync_repo(1)[0]
@@ -83,7 +91,9 @@ def run(ctx):
         if k == 4:
             # the same source earlier with the other optimisation / wasm setting, then a rejected program
             o2 = dict(targets[i][3]); o2["optimize"] = not o2.get("optimize", False)
-            return [{"src": targets[i][2], "opts": o2}, {"src": "export function f(int a) -> int { return b; }", "opts": {}}], False
+            # ... and one source for each validator that rejects: break outside a loop, an unknown swizzle letter, a constant index out of bounds, a float
+            # index, a redeclared name -- a verdict of an earlier compilation must not reach a later one
+            return [{"src": targets[i][2], "opts": o2}, {"src": "export function f(int a) -> int { return b; }", "opts": {}}] + [{"src": t, "opts": {}} for t in REJECTED], False
         # sources that use the NAMES the targets use with another meaning: structures S / S0 / S1 with other members, globals named like the
         # targets' parameters and locals, functions f / h / k with other signatures -- nothing of an earlier compilation may leak into a later one
         return [{"src": COLLIDE[j], "opts": {"optimize": bool(j % 2)}} for j in range(len(COLLIDE))], False
